@@ -210,20 +210,20 @@ def stepD (d : DState) (toks : List String) : DState × String :=
     (d, encList (selectVS (decList svcs) named))
   | ["msvc", h, ns, ports, addr] =>
     let ps := (decList ports).map String.toNat!
-    ({ d with mesh := { d.mesh with svcs := d.mesh.svcs ++ [{ host := dec h, ns := dec ns, ports := ps, addr := dec addr }] },
+    ({ d with mesh := { d.mesh with svcs := d.mesh.svcs ++ [{ host := dec h, ns := dec ns, ports := ps, addr := dec addr }], built := false },
               -- the spec resolves destinations against the FULL registry
               ctx := { d.ctx with services := d.ctx.services ++ [{ host := dec h, ports := ps }] } }, "ok")
   | ["mvs"] =>
     if d.vs.http.isEmpty || d.mesh.vss.any (fun v => v.name == d.vs.name) then (d, "ok")
-    else ({ d with mesh := { d.mesh with vss := d.mesh.vss ++ [d.vs] } }, "ok")
+    else ({ d with mesh := { d.mesh with vss := d.mesh.vss ++ [d.vs], built := false } }, "ok")
   | ["rds", ns, labels, port] =>
     ({ d with ctx := { d.ctx with proxyNamespace := dec ns, proxyLabels := decPairs labels, gatewayNames := ["mesh"],
                                   listenPort := port.toNat! },
-              mesh := { d.mesh with proxyDomain := dec ns ++ ".svc.cluster.local" } }, "ok")
+              mesh := { d.mesh with proxyDomain := dec ns ++ ".svc.cluster.local", built := true } }, "ok")
   | "rreq" :: f =>
     match decReq f with
     | none => (d, "bad-op")
-    | some (req, re) => (d, showDecision (meshSpec re d.ctx d.mesh req))
+    | some (req, re) => if !d.mesh.built then (d, "no-rds") else (d, showDecision (meshSpec re d.ctx d.mesh req))
   | ["acc"] => ({ d with vh := { d.vh with acc := d.vh.acc ++ compile d.ctx d.vs } }, "ok")
   | ["sortv"] => (d, showRoutes (sortVHostRoutes d.vh.acc))
   | "sreq" :: f =>
